@@ -136,7 +136,7 @@ Definition interp_loop (W : world) (f : nat) (E : ectx) :=
     | (text, None) :: r => go r (acc +++ text) unk sec
     | (text, Some p) :: r =>
         pv <- eval_access W f E p ;;
-        let '(s, u, sc) := to_string big_fuel pv in
+        let '(s, u, sc) := to_string (ts_need pv) pv in
         go r (if u then acc +++ text else acc +++ text +++ s) (unk || u) (sec || sc)
     end.
 
@@ -199,8 +199,8 @@ Lemma eval_access_S W f E p :
     | a0 :: rest =>
         let k0 := object_key a0 in
         match k0 with
-        | Some "imports" => let '(c, n) := value_access big_fuel (ec_imports E) rest in add_err n ;;; ret c
-        | Some "context" => let '(c, n) := value_access big_fuel (ec_context E) rest in add_err n ;;; ret c
+        | Some "imports" => let '(c, n) := value_access (va_need (ec_imports E) rest) (ec_imports E) rest in add_err n ;;; ret c
+        | Some "context" => let '(c, n) := value_access (va_need (ec_context E) rest) (ec_context E) rest in add_err n ;;; ret c
         | _ => walk W f E (EObj (ec_values E)) false (ec_base E) (ec_name E, []) p
         end
     end.
@@ -224,7 +224,7 @@ Lemma walk_S W f E rx rsec rbase rid accs :
                 match find_entry k entries O with
                 | Some (_, px) => walk W f E px false (property k rbase) (fst rid, snd rid ++ [IKey k]) rest
                 | None =>
-                    if is_object rbase then let '(c, n) := value_access big_fuel rbase accs in add_err n ;;; ret c
+                    if is_object rbase then let '(c, n) := value_access (va_need rbase accs) rbase accs in add_err n ;;; ret c
                     else err ;;; ret invalid_access
                 end
             end
@@ -232,7 +232,7 @@ Lemma walk_S W f E rx rsec rbase rid accs :
         | ESecretCipher _ => err ;;; ret invalid_access
         | _ =>
             v <- eval_expr W f E rx rsec rbase rid ;;
-            let '(c, n) := value_access big_fuel v accs in add_err n ;;; ret c
+            let '(c, n) := value_access (va_need v accs) v accs in add_err n ;;; ret c
         end
     end.
 Proof. reflexivity. Qed.
@@ -251,14 +251,14 @@ Definition open_body (W : world) (f : nat) (E : ectx) (pname : string) (inputs :
   | None => ret [unknown_layer false out_s]
   | Some p =>
       if negb ok || contains_unknowns iv || w_check W then ret [unknown_layer false out_s]
-      else match export big_fuel iv with
+      else match export_t iv with
            | Some (XObj s u m as xin) =>
                failed2 <- call W ;;
                emit (EvOpen id pname xin (ec_root E) (ec_name E)) ;;;
                let out := if failed2 then None
                           else match pv_beh p with PEcho => Some xin | PConst v => Some v | PFail => None end in
                match out with
-               | Some o => ret (unexport big_fuel false o)
+               | Some o => ret (unexport (S (x_depth o)) false o)
                | None => err ;;; ret [unknown_layer false out_s]
                end
            | Some _ => err ;;; ret [unknown_layer false out_s]
@@ -347,7 +347,7 @@ Lemma eval_repr_S W f E x xbase id :
           else match v with
                | LScalar _ _ _ (SStr s) :: _ =>
                    match json_parse s with
-                   | JPOk j => ret (unexport big_fuel false (json_to_x (S (json_depth j)) sec j))
+                   | JPOk j => ret (unexport (S (x_depth (json_to_x (S (json_depth j)) sec j))) false (json_to_x (S (json_depth j)) sec j))
                    | JPErr => err ;;; ret [LScalar sec true ScAlways SNull]
                    | JPUnsupported => out_of_fuel ;;; ret invalid_access
                    end
@@ -366,7 +366,7 @@ Lemma eval_repr_S W f E x xbase id :
              end
     | EToString e =>
         v <- eval_expr W f E e false [] (fst id, snd id ++ [IIdx 0]) ;;
-        let '(s, unk, sec) := to_string big_fuel v in
+        let '(s, unk, sec) := to_string (ts_need v) v in
         if unk then ret [LScalar sec true (ScType "string") SNull] else ret [str_layer sec false s]
     | ESecretPlain s => eval_expr W f E (EStr s) true [] (fst id, snd id ++ [IIdx 0])
     | ESecretCipher repr => cipher_body W E repr
@@ -471,10 +471,10 @@ Proof. reflexivity. Qed.
 (* NB: never [unfold contains_unknowns in H] -- the conversion check at Qed can diverge on [export big_fuel];
    rewrite with this equation instead *)
 Lemma contains_unknowns_eq iv :
-  contains_unknowns iv = (match export big_fuel iv with Some v => x_has_unknown v | None => true end).
+  contains_unknowns iv = (match export_t iv with Some v => x_has_unknown v | None => true end).
 Proof. reflexivity. Qed.
 
-Lemma no_unknown_export iv x : contains_unknowns iv = false -> export big_fuel iv = Some x -> x_has_unknown x = false.
+Lemma no_unknown_export iv x : contains_unknowns iv = false -> export_t iv = Some x -> x_has_unknown x = false.
 Proof. intros H Hx. rewrite contains_unknowns_eq in H. rewrite Hx in H. exact H. Qed.
 
 (* ------------------------------------------------------------------------------------------- *)
